@@ -203,7 +203,9 @@ theorem step_accepts (info : CompId → CompInfo) (w : WM) (op : Op Handle) (hmk
     unfold WM.destroy
     split
     · rw [slotsOf_pushCmd_other _ _ _ rfl]; rfl
-    · exact congrArg some (slotsOf_congr (w := w) rfl rfl).symm
+    · split
+      · exact congrArg some (slotsOf_congr (w := w) rfl rfl).symm
+      · rfl
   | destroyNow t e => exact step_destroyNow info w t e hmk
   | clone e =>
     have := slots_of_live (clone_accepts w _ (tempOnly_tempLive w.buffers) e hmk hop)
